@@ -32,6 +32,9 @@ func init() {
 			compactionShape(r)
 			c02DeletePropagates(r)
 			fragmentRevalidatedAfterLock(r)
+			c06CollectedVersionsComplete(r)
+			c03PreviousOwners(r)
+			kvScanIndexRegistration(r)
 		},
 	})
 }
